@@ -148,6 +148,19 @@ fn check(s: &Session, st: &mut Stats) -> CheckResult {
         let ctx_desc = || format!("history:\n---\n{}\n---", history.join("\n---\n"));
         match stage {
             Some(stage) => {
+                // the failing input itself is a "later input" with respect to the failing inputs
+                // before it: on a copy of the session that never saw those it must fail in the
+                // same way (the copy is thrown away, so B still never sees a failing input)
+                let ob = eval(&mut b.clone(), src);
+                if outcome_key(&oa) != outcome_key(&ob) {
+                    return Err(Failure::new(
+                        "later-input-behaves-differently",
+                        format!(
+                            "the failing input {idx} `{}` gives {} after earlier failing inputs but {} without them; {}",
+                            src.replace('\n', "; "), oa.summary(), ob.summary(), ctx_desc()
+                        ),
+                    ));
+                }
                 if oa.ok() {
                     return Err(Failure::new("harness", format!("input {idx} was meant to fail ({stage}) but succeeded: {src}")));
                 }
